@@ -23,6 +23,7 @@ META = {
 
 def check(ctx):
     canon.dmrg_protocol(ctx)
+    canon.dmrg_gate_everywhere(ctx)
     canon.truncargs(ctx)
     from ..rules import tdvp
     tdvp.solver_units_and_tolerances(ctx)
